@@ -221,3 +221,160 @@ func (g *Gen) logQueries(p int, nAdded int, n int) {
 		g.add("get %d @%d", p, g.pick(nAdded+1))
 	}
 }
+
+// genRoutes: the same entries reach replicas by different routes (manual sync, announcements delivered
+// late / twice / out of order, head exchange on join, load from the cache after a restart), with link
+// cuts and heals; a final phase heals everything and exchanges heads between every ordered pair.
+func genRoutes(r *rand.Rand, id string, size int, total int) []string {
+	g := &Gen{r: r}
+	peers := g.choosePeers(total)
+	if len(peers) < 2 {
+		peers = g.r.Perm(total)[:2]
+	}
+	kind := []string{"kv", "log", "doc"}[g.pick(3)]
+	keys := g.keys(1 + g.pick(3))
+	g.add("scn %s kind=%s acl=%s peers=%s", id, kind, joinInts(peers), joinInts(peers))
+	up := map[[2]int]bool{}
+	for _, p := range peers {
+		for _, q := range peers {
+			up[[2]int{p, q}] = true
+		}
+	}
+	other := func(p int) int {
+		q := peers[g.pick(len(peers))]
+		for q == p {
+			q = peers[g.pick(len(peers))]
+		}
+		return q
+	}
+	write := func(p int) {
+		switch kind {
+		case "kv":
+			if g.pick(4) == 0 {
+				g.add("del %d %s", p, hx(keys[g.pick(len(keys))]))
+			} else {
+				g.add("put %d %s %s", p, hx(keys[g.pick(len(keys))]), hx(g.value()))
+			}
+		case "log":
+			g.add("add %d %s", p, hx(g.value()))
+		case "doc":
+			g.add("docput %d %s %s", p, hx([]byte(fmt.Sprintf("d%d", g.pick(3)))), hx([]byte(fmt.Sprintf("v%d", g.pick(50)))))
+		}
+	}
+	steps := 3 + g.pick(size)
+	for i := 0; i < steps; i++ {
+		p := peers[g.pick(len(peers))]
+		q := other(p)
+		c := g.pick(100)
+		switch {
+		case c < 35:
+			write(p)
+		case c < 47:
+			if up[[2]int{p, q}] {
+				g.add("sync %d %d", p, q)
+			}
+		case c < 62:
+			if up[[2]int{p, q}] {
+				g.add("pubdeliver %d %d %d", q, p, g.pick(50))
+			}
+		case c < 77:
+			if up[[2]int{p, q}] {
+				mode := []string{"", "", "", " drop", " dup"}[g.pick(5)]
+				g.add("exchange %d %d%s", p, q, mode)
+			}
+		case c < 85:
+			up[[2]int{p, q}], up[[2]int{q, p}] = false, false
+			g.add("cut %d %d", p, q)
+		case c < 92:
+			up[[2]int{p, q}], up[[2]int{q, p}] = true, true
+			g.add("heal %d %d", p, q)
+		default:
+			g.add("restart %d", p)
+		}
+		g.obsAll(peers)
+	}
+	for _, p := range peers {
+		for _, q := range peers {
+			if p < q && !up[[2]int{p, q}] {
+				g.add("heal %d %d", p, q)
+			}
+		}
+	}
+	for _, p := range peers {
+		for _, q := range peers {
+			if p != q {
+				g.add("exchange %d %d", p, q)
+			}
+		}
+	}
+	g.obsAll(peers)
+	g.add("final")
+	return g.lines
+}
+
+// genStatus: replication status sampled mid-flight. Several writers build separate branches; one
+// replica is told about their heads one at a time while some fetches are held back at the gate, and is
+// observed after every step; then everything is released.
+func genStatus(r *rand.Rand, id string, size int, total int) []string {
+	g := &Gen{r: r}
+	peers := g.r.Perm(total)
+	if total > 3 && g.pick(2) == 0 {
+		peers = peers[:3]
+	}
+	obsr := peers[0]
+	g.add("scn %s kind=log acl=%s peers=%s", id, joinInts(peers), joinInts(peers))
+	// each writer (including the observer) writes its own chain
+	type br struct{ p, first, n int }
+	var brs []br
+	next := 1
+	for _, p := range peers {
+		n := 1 + g.pick(size)
+		if p == obsr {
+			n = g.pick(size)
+		}
+		for i := 0; i < n; i++ {
+			g.add("add %d %s", p, hx(g.value()))
+		}
+		brs = append(brs, br{p, next, n})
+		next += n
+	}
+	g.add("obs %d", obsr)
+	var held []string
+	order := g.r.Perm(len(brs))
+	for _, i := range order {
+		b := brs[i]
+		if b.p == obsr || b.n == 0 {
+			continue
+		}
+		head := fmt.Sprintf("e%d", b.first+b.n-1)
+		if g.pick(3) > 0 {
+			// hold the whole branch so only the announcement (not the fetch) has happened
+			var names []string
+			for k := b.first; k < b.first+b.n; k++ {
+				names = append(names, fmt.Sprintf("e%d", k))
+			}
+			g.add("hold %d %s", obsr, strings.Join(names, ","))
+			held = append(held, strings.Join(names, ","))
+			g.add("syncasync %d heads=%s", obsr, head)
+			g.add("waitget %d %s", obsr, head)
+		} else {
+			g.add("syncasync %d heads=%s", obsr, head)
+			if len(held) > 0 {
+				g.add("settle %d 20", obsr)
+			} else {
+				g.add("settle %d", obsr)
+			}
+		}
+		g.add("obs %d", obsr)
+		if g.pick(3) == 0 {
+			g.add("add %d %s", obsr, hx(g.value()))
+			g.add("obs %d", obsr)
+		}
+	}
+	for _, h := range held {
+		g.add("release %d %s", obsr, h)
+	}
+	g.add("settle %d", obsr)
+	g.add("obs %d", obsr)
+	return g.lines
+}
